@@ -5,5 +5,5 @@ CONSTANTS Cids = {c1, c2}
           NProd = 2
           AsBuilt = {"Merge"}
 SYMMETRY Sym
-INVARIANTS TypeOK Converged WantNeverUnsent CancelNeverLeftActive NoHaveToLegacyPeer
+INVARIANTS TypeOK Converged WantNeverUnsent CancelNeverLeftActive NoHaveToLegacyPeer SentListFaithful HeldIsRemembered
 CHECK_DEADLOCK FALSE
